@@ -300,7 +300,9 @@ def gen_concat(ctx):
     return cases
 
 
-BACKINGS = ["np", "np_f", "np_strided", "np_negstride", "f32", "xr", "xr_dask", "xr_lab", "xr_revx", "xr_float", "xr_yone"]
+BACKINGS = ["np", "np_f", "np_strided", "np_negstride", "f32", "xr", "xr_dask", "xr_lab", "xr_revx", "xr_float", "xr_yone",
+            "xr_xy", "xr_xy_lab", "xr_other", "xr_one_named"]
+CLASSES = ["legacy", "future", "grid"]
 
 
 def gen_joint(ctx):
@@ -346,7 +348,7 @@ def gen_swath(ctx):
             ys, xs = rand_slice(r, cn), rand_slice(r, cm)
             keys.append([ys, xs])
             cn, cm = len(sel(cn, ys)), len(sel(cm, xs))
-        cases.append({"n": n, "m": m, "keys": keys, "cls": "future" if i % 2 else "legacy", "backing": BACKINGS[(i // 2) % len(BACKINGS)]})
+        cases.append({"n": n, "m": m, "keys": keys, "cls": CLASSES[i % 3], "backing": BACKINGS[(i // 3) % len(BACKINGS)]})
     conc = []
     for i in range(ctx.n(120, 1200)):
         n1, n2, m = r.randint(1, 7), r.randint(1, 7), r.randint(1, 6)
@@ -355,7 +357,7 @@ def gen_swath(ctx):
         key = [[r.randint(0, total), r.randint(0, total + 2)], rand_slice(r, m)] if i % 2 else [rand_slice(r, total), rand_slice(r, m)]
         if not sel(total, key[0]):
             key[0] = [None, None]
-        conc.append({"n1": n1, "n2": n2, "m": m, "m2": m2, "cls": "future" if i % 2 else "legacy", "backing": BACKINGS[(i // 2) % len(BACKINGS)],
+        conc.append({"n1": n1, "n2": n2, "m": m, "m2": m2, "cls": CLASSES[i % 3], "backing": BACKINGS[(i // 3) % len(BACKINGS)],
                      "key": key if m2 == m else None, "k": r.randint(1, n1 - 1) if n1 > 1 else None})
     return cases, conc
 
@@ -458,7 +460,8 @@ def run(ctx):
                 "upper-left corner) whose parent and children are requested lazily with the same chunks and evaluated in ONE dask.compute, "
                 "compared with stand-alone evaluation; swath arrays also as Fortran-ordered / strided / negative-stride / float32 numpy arrays and "
                 "as xarray.DataArray (unlabelled, dask-backed, int labels, reversed column labels, non-identical float labels, row labels on one "
-                "operand). Non-trivial = the slice is a proper sub-window / the chain has >= 2 steps / the stack has >= 2 "
+                "operand, dims named ('x','y') i.e. first axis called x, other dim names), for the legacy and future SwathDefinition and for "
+                "GridDefinition, judged positionally like numpy. Non-trivial = the slice is a proper sub-window / the chain has >= 2 steps / the stack has >= 2 "
                 "members with a row window starting after row 0 / the concatenation changes the shape; distinct = distinct inputs")
     ctx.exhaustive = True
     gcases, mal = gen_getitem(ctx)
@@ -728,7 +731,8 @@ def run(ctx):
             rows, cols = rows[slice(key[0][0], key[0][1])], cols[slice(key[1][0], key[1][1])]
             want = [[r_ * 1000 + c_ for c_ in cols] for r_ in rows]
             want_mod = "pyresample.future.geometry.swath" if c["cls"] == "future" else "pyresample.geometry"
-            if "error" in st or st["lons"] != want or not st["lats_ok"] or st["shape"] != [len(rows), len(cols)] or st["module"] != want_mod:
+            want_cls = "GridDefinition" if c["cls"] == "grid" else "SwathDefinition"
+            if "error" in st or st["lons"] != want or not st["lats_ok"] or st["shape"] != [len(rows), len(cols)] or st["module"] != want_mod or st["cls"] != want_cls:
                 ctx.add_failure("C10.swath.slice" + sfx, "%s swath (arrays as %s) of shape %s sliced by %s gives %s, expected rows %s cols %s"
                                 % (c["cls"], bk, (n, m), keys, {k: v for k, v in st.items() if k != "lons"}, rows, cols), rep)
                 ok = False
